@@ -3951,7 +3951,10 @@ void __divappr_helper(mp_ptr qp, mp_ptr np, mp_srcptr dp, mp_size_t qn);
    hence giving back the user's size in bits rounded up.  Notice that
    converting prec->bits->prec gives an unchanged value.  */
 #define __GMPF_BITS_TO_PREC(n)						\
-  ((mp_size_t) ((__GMP_MAX (53, n) + 2 * GMP_NUMB_BITS - 1) / GMP_NUMB_BITS))
+  ((mp_size_t) (__GMP_MAX (53, n) / GMP_NUMB_BITS + 1			\
+		+ (__GMP_MAX (53, n) % GMP_NUMB_BITS != 0)))
+/* the same value as (max(53,n) + 2*GMP_NUMB_BITS - 1) / GMP_NUMB_BITS, without
+   the wrap-around of that sum for bit counts near the maximum */
 #define __GMPF_PREC_TO_BITS(n) \
   ((mp_bitcnt_t) (n) * GMP_NUMB_BITS - GMP_NUMB_BITS)
 
